@@ -194,7 +194,7 @@ pub fn lzma2_end_only() {
     uncompressed_chunks::<0, 1, 1, 1, 0>()
 }
 
-//@ harness props=C02,C11,C17 tier=quick unwind=6 unwindset=decompress:4,default_read_exact:4,uncompressed_chunks:12 mem_gb=6 timeout=600 native=no
+//@ harness props=C02,C09,C11,C17 tier=quick unwind=6 unwindset=decompress:4,default_read_exact:4,uncompressed_chunks:12 mem_gb=6 timeout=600 native=no
 //@ bound: LZMA2: two uncompressed chunks (control 1 then 2) of 3 symbolic bytes each, end byte, trailing byte
 #[cfg_attr(kani, kani::proof)]
 #[cfg_attr(kani, kani::stub(std::fmt::format, crate::verif_common::stub_format))]
